@@ -228,6 +228,10 @@ func ruleJ3(c *Ctx) {
 				if isSortCall(call.Call.StaticCallee()) {
 					sorts = append(sorts, in)
 				}
+				// a helper that returns its result sorted (items, err := sortedItems(x)) is a sort at its call site
+				if f == em && alwaysSorts(call.Call.StaticCallee()) {
+					sorts = append(sorts, in)
+				}
 				if isRecursiveEmit(em, call) {
 					recs = append(recs, in)
 				}
@@ -288,4 +292,42 @@ func ruleJ4(c *Ctx) {
 			c.viol(key, c.P.Pos(em.Pos()), "Iterable is tested before IterableMapping: a dict would be encoded as an array of its keys")
 		}
 	}
+}
+
+// alwaysSorts: g is a lib/json function every successful return of which is dominated by a sort call in g.
+func alwaysSorts(g *ssa.Function) bool {
+	if g == nil || g.Blocks == nil || relPkg(fnPkgPath(g)) != "lib/json" {
+		return false
+	}
+	var sorts []ssa.Instruction
+	eachInstr(g, func(in ssa.Instruction) {
+		if call, ok := in.(*ssa.Call); ok && in.Parent() == g && isSortCall(call.Call.StaticCallee()) {
+			sorts = append(sorts, in)
+		}
+	})
+	if len(sorts) == 0 {
+		return false
+	}
+	ok := true
+	any := false
+	eachInstr(g, func(in ssa.Instruction) {
+		ret, isRet := in.(*ssa.Return)
+		if !isRet || in.Parent() != g {
+			return
+		}
+		if n := len(ret.Results); n > 0 && ret.Results[n-1].Type().String() == "error" && !isNilConst(ret.Results[n-1]) {
+			return // an error return
+		}
+		any = true
+		dom := false
+		for _, s := range sorts {
+			if instrDominates(s, ret) {
+				dom = true
+			}
+		}
+		if !dom {
+			ok = false
+		}
+	})
+	return ok && any
 }
